@@ -53,6 +53,12 @@ func (x *Exec) verifyFunction(f *ssa.Function) (rep FuncReport) {
 		}
 	}()
 	st := x.baseState()
+	// symbol numbering restarts for every function, so the text of a query (and with it the solver's
+	// behaviour) does not depend on which other functions were verified before it
+	if x.baseCtr == 0 {
+		x.baseCtr = freshCtr + 1
+	}
+	freshCtr = x.baseCtr
 	st.entryNext = st.next
 	st.assume(eq(entryNextSym(), st.next))
 	x.curFn = f
